@@ -248,6 +248,7 @@ PROPS = {
             "note": "The theorem is about the model's panic sites (the Go run-time checks the model makes explicit); that these are all the places the Go code can panic is what the correspondence checks (arbitrary byte strings, crash-isolated). Go run-time failures outside the modelled checks (stack exhaustion, memory exhaustion by OP_NUM2BIN to gigabytes) are exercised, not proved. Option validation before execution (nil tx, nil input, missing scripts) is checked by correspondence only. Trusted: Lean kernel + standard axioms, harness/generators/comparer, driver glue.",
         },
         "generators": ["C07"],
+        "gen_obligations": ["index_sites_reviewed"],
         "thorough_seeds": 2,
         "rule": "13 hand-picked nasty script pairs x all 136 single flags / flag pairs x 2 contexts; random / grammar-aware / truncated / signature-opcode-bearing scripts x sampled flag sets x 8 context kinds x {valid, -1, len, 2^30} indices x {no debugger, recording debugger}; isolated resource probes (OP_CHECKMULTISIG with key counts up to 2^31-1). Non-trivial = execution that got past option validation with at least one non-empty script.",
         "nontrivial": lambda op, impl: len(op) > 40,
